@@ -135,10 +135,10 @@ func main() {
 			continue
 		}
 		prefix := fmt.Sprintf("/k%d", ci)
-		w.CRL.Set(prefix+"/crl", origin.Good(crlgen.PEM(crlDER, "\n", true)))
+		w.CRL.Set(prefix+"/CRL/Issuing-CA.crl", origin.Good(crlgen.PEM(crlDER, "\n", true)))
 		w.CRL.Set(prefix+"/bad", origin.Status(500, []byte("<html>internal error</html>")))
-		w.OCSP.Set(prefix+"/ok", responder)
-		w.OCSP.Set(prefix+"/unavail", origin.Status(500, []byte("<html>internal error</html>")))
+		w.OCSP.Set(prefix+"/OCSP/Issuing-CA", responder)
+		w.OCSP.Set(prefix+"/OCSP/Unavailable", origin.Status(500, []byte("<html>internal error</html>")))
 		workDir := filepath.Join(scratch, fmt.Sprintf("wd%d", ci))
 		_ = os.MkdirAll(workDir, 0755)
 		_ = os.WriteFile(filepath.Join(workDir, "foreign.txt"), []byte("keep"), 0644)
@@ -172,23 +172,23 @@ func main() {
 					var aia, cdp []string
 					switch oc {
 					case "good":
-						aia = []string{w.OCSP.URL(prefix + "/ok")}
+						aia = []string{w.OCSP.URL(prefix + "/OCSP/Issuing-CA")}
 						statusOf[serial.String()] = ocsp.Good
 					case "revoked":
-						aia = []string{w.OCSP.URL(prefix + "/ok")}
+						aia = []string{w.OCSP.URL(prefix + "/OCSP/Issuing-CA")}
 						statusOf[serial.String()] = ocsp.Revoked
 					case "unavailable":
-						aia = []string{w.OCSP.URL(prefix + "/unavail")}
+						aia = []string{w.OCSP.URL(prefix + "/OCSP/Unavailable")}
 					case "good-after-refused":
-						aia = []string{refused, w.OCSP.URL(prefix + "/ok")}
+						aia = []string{refused, w.OCSP.URL(prefix + "/OCSP/Issuing-CA")}
 						statusOf[serial.String()] = ocsp.Good
 					case "revoked-after-refused":
-						aia = []string{refused, w.OCSP.URL(prefix + "/ok")}
+						aia = []string{refused, w.OCSP.URL(prefix + "/OCSP/Issuing-CA")}
 						statusOf[serial.String()] = ocsp.Revoked
 					}
 					switch cc {
 					case "listed", "not-listed":
-						cdp = []string{w.CRL.URL(prefix + "/crl")}
+						cdp = []string{w.CRL.URL(prefix + "/CRL/Issuing-CA.crl")}
 					case "cdp-unavailable", "listed-configured+cdp-unavailable":
 						cdp = []string{w.CRL.URL(prefix + "/bad")}
 					}
